@@ -35,6 +35,10 @@ QUICK_UNION = {
             'process_dict', 'reset_dict', 'set_dict', 'isal_inflate_init', 'isal_inflate_reset',
             'huff_set_hufftables', 'update_state', 'reset_match_history', 'sync_flush'],
 }
+# C01 (lossless / conformant) is likewise a union of component contracts: the pieces of the emitted stream
+QUICK_UNION['C01'] = ['deflate_header_unaligned_bc0', 'deflate_header_unaligned_bc3', 'deflate_header_unaligned_bc7',
+                      'deflate_header_stateless', 'bb_write_bits', 'write_type0_header', 'sync_flush', 'write_trailer',
+                      'write_constant_compressed_hi', 'isal_deflate_body_base_site', 'isal_deflate_finish_base_site']
 _by_name = {h.name: h for h in HARNESSES}
 for _pid, _names in QUICK_UNION.items():
     for _n in _names:
